@@ -997,10 +997,12 @@ func TestC36(t *testing.T) {
 		"every grid point (expectedNumberOfItems in {0,1,2,3,10,100,1e4,1e6,1e7} x falsePositiveRate in {5e-324,1e-300,1e-12,1e-6,0.01,0.5,0.7,0.7071,0.7072,0.75,0.9,0.99,0.999999,1-2^-53,1,1+2^-52,0,-0.5,NaN,+Inf}) that NewCountingBloomFilter accepts is first probed in a crash-isolated child (constructor, first Add, first Exists), then gets a random history of "+
 			"Add/AddMulti (re-adds, duplicates)/Remove/RemoveMulti of items whose net multiplicity stays >= 0/Exists/ExistsMulti/ItemMinCount/ItemMinCountMulti against a reference multiset (some adds answered by the server with an error reply - OOM, READONLY, WRONGTYPE, script error - instead of being executed: an Add that returns nil then still counts as added), then removals of never-added or over-removed items judged on the server's counters (HGETALL before/after, item indexes read from the EVALSHA the server received): single Removes and RemoveMulti calls that mix 1-5 distinct bad items (fresh, seen in an earlier call, removed before, or listed once more than their net multiplicity) with live ones in random order; "+
 			"configurations with 1-3 (half as many rounds: 10) expected items and 2-20 hash functions, and 15 further small ones (n in 1..5, rate 0.02-0.3: 4-29 counters, 2-7 hash functions), then get collision rounds: the filter is refilled with 1-3 items (deleted first one time in three or when more than n+2 items are live) and takes 1-3 such RemoveMulti calls with 2-5 distinct bad items, so that refused items and later items of the same call share counters; "+
-			"a case = (n, rate, hash functions on the wire, call kind, members/others queried or removal shape), non-trivial when an item with positive net multiplicity was queried / a removal had to be refused")
+			"fault worlds (32 quick / 640 thorough, 8 configurations with 1-20 hash functions, 3 of 4 on a client with retries enabled): 30 Add/AddMulti/Remove/RemoveMulti calls (removals within the net multiplicities, two thirds of the single Removes on items with multiplicity >= 2), 7 of 8 with one transport fault aimed at the call's script command (EVALSHA, or the EVAL after NOSCRIPT when the script cache was flushed first): connection closed before executing, after executing without a reply, or 1-3 bytes into the reply; every call is judged on the server's counters (zero or one application, never more) and followed by ExistsMulti + ItemMinCountMulti of its items and some live ones against the reference multiset (a call that returned nil counts once, one that returned an error as often as the server applied it); "+
+			"a case = (n, rate, hash functions on the wire, call kind, members/others queried or removal shape / fault kind, target, client kind, multiplicity), non-trivial when an item with positive net multiplicity was queried / a removal had to be refused / a fault fired")
 	defer run.Finish()
 	run.Assume("fakeredis HINCRBY/HGET/HMGET/HGETALL/INCRBY/DECRBY and minilua execute the shipped scripts as Redis 7 would (harness self tests)",
-		"RemoveMulti is judged per item: the counters after the call must equal the counters before minus the decrements of some subset of the items that were removable against the state before the call")
+		"RemoveMulti is judged per item: the counters after the call must equal the counters before minus the decrements of some subset of the items that were removable against the state before the call",
+		"one call of the caller is one add / remove of the history: when the transport fails in the middle of it the filter may hold it zero times or once (an error result leaves that open), never twice")
 	d := &driver{run: run, rng: run.Rand("history")}
 	nops := run.N(100, 3000)
 	var zero []string
@@ -1059,6 +1061,8 @@ func TestC36(t *testing.T) {
 			run.Sample(map[string]any{"config": c.String(), "hash_functions_on_wire": k, "ops": nops / 4, "collision_rounds": cw})
 		}
 	}
+	// fault worlds: the same kind of history over a connection that breaks in the middle of a mutating call (faults_test.go)
+	(&driver{run: run, rng: run.Rand("fault-worlds")}).runFaultWorlds()
 	for why, l := range rejected {
 		if len(l) > 8 {
 			rejected[why] = append(l[:8:8], fmt.Sprintf("…(%d in total)", len(l)))
